@@ -614,7 +614,7 @@ enum cc_stat cc_tsttable_iter_next (CC_TSTTableIter *iter, CC_TSTTableEntry **ou
  */
 enum cc_stat cc_tsttable_iter_remove (CC_TSTTableIter *iter, void **out)
 {
-    if (!iter->current_node)
+    if (!iter->current_node || iter->advanced_on_remove)
         return CC_ERR_KEY_NOT_FOUND;
 
     if (out) {
